@@ -7,6 +7,8 @@ import ALV.Lemmas.C07Hash
 import ALV.Lemmas.C05Pow
 import ALV.Lemmas.C05Lists
 import ALV.Lemmas.C05Spec
+import ALV.Lemmas.C05Nested
+import ALV.Model.C05Lin
 import ALV.Spec.C05
 import ALV.Common.Audit
 
@@ -780,6 +782,225 @@ example : C05.eq (⟨[(0, 1), (1, 1)], [(1, 2), (0, 1)]⟩ : ZF Rat) ⟨[(1, 1),
 example := eq_hash (K := ℚ) ⟨[(0, 1), (1, 1)], [(1, 2), (0, 1)]⟩ ⟨[(1, 1), (0, 1)], [(0, 1), (1, 2)]⟩
   ⟨by unfold WF; decide +kernel, by unfold WF; decide +kernel⟩ ⟨by unfold WF; decide +kernel, by unfold WF; decide +kernel⟩
   (by decide +kernel)
+
+/-! ## C05.5 filter list OBJECTS: nested structures of any depth and any mixture of kinds
+
+`FL K` is what a `CascadeFilter` / `ParallelFilter` can hold and be: a ZFilter, a number (cast by
+`callables`), another callable (non-linear), or a filter list of such — of either kind, of a user
+subclass, with 0 / 1 / many parts.  `FL.call` / `FL.polys` are the methods as coded (`polys` with the
+repair of D22), `FL.applyS` / `FL.val` the specification by recursion on the structure: a cascade is the
+composition / product, a parallel the sum.  `env i` is what the callable with identity `i` computes. -/
+
+/-- **nested_call**: calling a nested structure whose ZFilters are causal gives the composition (cascade)
+/ the sum (parallel) of the outputs of its parts, recursively — any depth, any mixture, empty lists
+(identity / zeros), numbers and non-linear callables among the parts -/
+theorem nested_call (env : ℕ → K → K) (o : FL K) (h : o.All Causal) (xs : List K) :
+    o.call env xs = .ok (o.applyS env xs) :=
+  (call_eq_aux env).1 o h xs
+
+/-- the specification unfolds part by part: first part, then the rest of the same list -/
+theorem nested_spec_unfold (env : ℕ → K → K) (k : Kind) (p : FL K) (t : FLs K) (xs : List K) :
+    (k.par = false → (FL.node k (.cons p t)).applyS env xs = (FL.node k t).applyS env (p.applyS env xs)) ∧
+    (FL.node ⟨false, k.sub⟩ .nil).applyS env xs = xs ∧
+    (FL.node ⟨true, k.sub⟩ .nil).applyS env xs = xs.map (fun _ => 0) ∧
+    (k.par = false → (FL.node k (.cons p t)).val = p.val * (FL.node k t).val) ∧
+    (k.par = true → (FL.node k (.cons p t)).val = p.val + (FL.node k t).val) ∧
+    (FL.node ⟨false, k.sub⟩ .nil : FL K).val = 1 ∧ (FL.node ⟨true, k.sub⟩ .nil : FL K).val = 0 := by
+  refine ⟨fun h => ?_, rfl, rfl, fun h => ?_, fun h => ?_, ?_, ?_⟩
+  · simp [FL.applyS, h, FLs.compS]
+  · simp [FL.val, h, FLs.prodVal]
+  · simp [FL.val, h, FLs.sumVal]
+  · simp [FL.val, FLs.prodVal]
+  · simp [FL.val, FLs.sumVal]
+
+/-- **nested_structure_denotes**: for a structure of causal filters without an empty list and without a
+non-linear part, `numpoly` / `denpoly` do not raise, they are the polynomials of ONE causal filter `h`
+(already normalised: the constructor returns the pair unchanged) which denotes the product / sum of the
+parts' denotations, recursively (`FL.val`), and calling `h` is calling the structure -/
+theorem nested_structure_denotes (env : ℕ → K → K) (o : FL K) (hc : o.All Causal) (hf : o.Full) :
+    ∃ nd h, o.polys = .ok nd ∧ ofPolys nd.1 nd.2 = .ok h ∧ h = ⟨nd.1, nd.2⟩ ∧ Causal h ∧ val h = o.val ∧
+      ∀ xs, call h xs = o.call env xs := by
+  obtain ⟨nd, e, c, v, a⟩ := (polys_aux env).1 o hc hf
+  refine ⟨nd, ⟨nd.1, nd.2⟩, e, ofPolys_of_causal c, rfl, c, v, fun xs => ?_⟩
+  rw [call_eq_apply c, a xs, nested_call env o hc xs]
+
+/-- **constructor_rule** (`FilterList.__init__`): a lone filter object — a ZFilter or a filter list of
+WHATEVER kind — is one part (never unpacked); a lone list / tuple / generator is unpacked; star-args are
+the parts; so `K(P)`, `K(*[P])` and `K([P])` are the same object, and it denotes what `P` denotes
+(the product / sum of one part is the part), in value and in output -/
+theorem constructor_rule (env : ℕ → K → K) (k : Kind) (o : FL K) (ps : FLs K) (l : List (FL K)) :
+    construct k [Arg.filt o] = some (.node k (.cons o .nil)) ∧
+    construct k [Arg.iter ps] = some (.node k ps) ∧
+    construct k (l.map Arg.filt) = some (.node k (FLs.ofList l)) ∧
+    (FL.node k (.cons o .nil)).val = o.val ∧
+    ∀ xs, (FL.node k (.cons o .nil)).applyS env xs = o.applyS env xs := by
+  refine ⟨rfl, rfl, ?_, ?_, fun xs => ?_⟩
+  · have hm : ∀ l : List (FL K), (l.map Arg.filt).mapM Arg.asPart = some l := by
+      intro l
+      induction l with
+      | nil => rfl
+      | cons a t ih => simp [List.mapM_cons, Arg.asPart, ih]
+    match l with
+    | [] => rfl
+    | [a] => rfl
+    | a :: b :: t =>
+      have := hm (a :: b :: t)
+      simp only [List.map_cons] at this
+      simp only [construct, resolve, List.map_cons, this, Option.map_some]
+  · by_cases hk : k.par = true <;> simp [FL.val, hk, FLs.prodVal, FLs.sumVal]
+  · by_cases hk : k.par = true
+    · simp only [FL.applyS, if_pos hk, FLs.sumS]
+      exact addSig_zeros xs _ (FL.applyS_length env o xs)
+    · simp [FL.applyS, hk, FLs.compS]
+
+/-- **concat_denotes** (`a + b`, `a * n` results of `list` methods): the concatenation of two filter lists
+is a filter list of the class of the LEFT operand (inside the wrappers of its user subclasses), and it
+denotes the product (cascade) / sum (parallel) of what the two lists denote as that kind -/
+theorem concat_denotes (env : ℕ → K → K) (k k' : Kind) (a b : FLs K) :
+    ∃ o, Obj.add (.fl (.node k a)) (.fl (.node k' b)) = .ok (.fl o) ∧
+      o.val = (if k.par then a.sumVal + b.sumVal else a.prodVal * b.prodVal) ∧
+      ∀ xs, o.applyS env xs = (FL.node ⟨k.par, 0⟩ (a ++ b)).applyS env xs := by
+  refine ⟨wrap k.par k.sub (a ++ b), rfl, ?_, fun xs => wrap_applyS env _ _ _ xs⟩
+  rw [wrap_val]
+  by_cases hk : k.par = true <;> simp [FL.val, hk, prodVal_append, sumVal_append]
+
+/-- **obj_eq_ne_exclusive**: exactly one of `a == b`, `a != b` holds for EVERY pair of objects of the
+model — ZFilters, numbers, functions, filter lists of either kind and of user subclasses, plain lists,
+tuples — with `FilterList.__ne__` as coded (`type(self) != type(other) or list.__ne__(self, other)`,
+`list.__ne__` looking for a pair of items that is not `==`) -/
+theorem obj_eq_ne_exclusive (a b : Obj K) : Obj.ne a b = !Obj.eq a b := Obj.ne_eq_not_eq a b
+
+/-- a cascade and a parallel with the same parts are different objects: `==` is False, `!=` is True, in
+both operand orders; the same for a filter list and a plain list / tuple of its parts -/
+theorem kinds_differ (ps : FLs K) (s s' : ℕ) (t : Bool) :
+    Obj.eq (.fl (.node ⟨false, s⟩ ps)) (.fl (.node ⟨true, s'⟩ ps)) = false ∧
+    Obj.ne (.fl (.node ⟨false, s⟩ ps)) (.fl (.node ⟨true, s'⟩ ps)) = true ∧
+    Obj.eq (.fl (.node ⟨true, s'⟩ ps)) (.fl (.node ⟨false, s⟩ ps)) = false ∧
+    Obj.ne (.fl (.node ⟨true, s'⟩ ps)) (.fl (.node ⟨false, s⟩ ps)) = true ∧
+    Obj.eq (.fl (.node ⟨false, s⟩ ps)) (.plain t ps) = false ∧ Obj.ne (.fl (.node ⟨false, s⟩ ps)) (.plain t ps) = true ∧
+    Obj.eq (.plain t ps) (.fl (.node ⟨false, s⟩ ps)) = false ∧ Obj.ne (.plain t ps) (.fl (.node ⟨false, s⟩ ps)) = true := by
+  simp [Obj.eq, Obj.ne, FL.eq, FL.ne]
+
+/-- **obj_eq_sound**: equal objects denote the same rational function and give the same output -/
+theorem obj_eq_sound (env : ℕ → K → K) (a b : FL K) (ha : a.All Causal) (hb : b.All Causal) (h : a.eq b = true) :
+    a.val = b.val ∧ ∀ xs, a.call env xs = b.call env xs := by
+  have hv : ∀ o : FL K, o.All Causal → o.All Valid := by
+    intro o
+    refine (FL.joint (m1 := fun o => o.All Causal → o.All Valid) (m2 := fun ps => ps.All Causal → ps.All Valid)
+      ?_ ?_ ?_ ?_ ?_ ?_).1 o
+    · intro f h; simp only [FL.All] at h ⊢; exact h.1
+    · intro c _; simp only [FL.All]
+    · intro i _; simp only [FL.All]
+    · intro k ps ih h; simp only [FL.All] at h ⊢; exact ih h
+    · intro _; simp only [FLs.All]
+    · intro p t ihp iht h; simp only [FLs.All] at h ⊢; exact ⟨ihp h.1, iht h.2⟩
+  refine ⟨eq_val_aux.1 a b (hv a ha) (hv b hb) h, fun xs => ?_⟩
+  rw [nested_call env a ha, nested_call env b hb, (eq_applyS_aux env).1 a b ha hb h xs]
+
+/-- **obj_eq_hash**: equal objects hash equally — for the hashable sorts (ZFilters: the tuple of sorted
+powers; numbers; functions); filter lists are unhashable: `hash` raises TypeError on both -/
+theorem obj_eq_hash (a b : FL K) (ha : a.All fun f => WF f.num ∧ WF f.den) (hb : b.All fun f => WF f.num ∧ WF f.den)
+    (h : a.eq b = true) : a.hash = b.hash ∧ ∀ k ps, (FL.node k ps : FL K).hash = .error .type :=
+  ⟨FL.hash_of_eq a b ha hb h, fun _ _ => rfl⟩
+
+/-- … and the code as it stands does **not** have the `numpoly` / `denpoly` property on nested structures
+(defect D22): `ParallelFilter.numpoly` is `reduce(operator.add, self).numpoly` on the raw elements, and
+`+` between two filter lists is list concatenation.  Witness `ParallelFilter(CascadeFilter(f, g),
+CascadeFilter(h, k))`: as coded the polynomials are those of the cascade `f·g·h·k`, not of `f·g + h·k`;
+the repaired `polys` gives the sum. -/
+theorem parallel_of_lists_as_coded_wrong :
+    ∃ o : FL Rat,
+      (match o.polysC 64, o.polys, o.rval with
+        | .ok (some c), .ok r, some s => (rEquiv (⟨c.1, c.2⟩ : ZF Rat) s, rEquiv (⟨r.1, r.2⟩ : ZF Rat) s)
+        | _, _, _ => (true, false)) = (false, true) :=
+  ⟨.node ⟨true, 0⟩ (.cons (.node ⟨false, 0⟩ (.cons (.leaf ⟨[(0, 1), (1, 1/2)], [(0, 1)]⟩)
+      (.cons (.leaf ⟨[(0, 2), (2, -1)], [(0, 1), (1, -1/4)]⟩) .nil)))
+    (.cons (.node ⟨false, 0⟩ (.cons (.leaf ⟨[(1, 1)], [(0, 1)]⟩) (.cons (.leaf ⟨[(0, 1)], [(0, 1), (1, 1/2)]⟩) .nil))) .nil)),
+   by decide +kernel⟩
+
+/-- **linearize_weights**: the pairs a term `v·x^k` is split into carry weights that add up to one — the
+sum of the coefficients (the gain at `z = 1`) is kept — and an integer delay is left alone -/
+theorem linearize_weights (t : FTerm K) :
+    ((linPairs t).map (·.2)).sum = t.v ∧ (t.w = 0 → linPairs t = [(t.left, t.v)]) := by
+  refine ⟨?_, fun h => by simp [linPairs, h]⟩
+  unfold linPairs
+  split
+  · simp
+  · simp only [List.map_cons, List.map_nil, List.sum_cons, List.sum_nil]; ring
+
+/-- **pow_spellings**: an exponent spelled as `int` or `bool` takes the integer path; a `Fraction`
+raises ValueError and a complex number TypeError whatever the filter; a `float` either raises (TypeError:
+a polynomial with two or more terms) or returns exactly what the integer exponent returns -/
+theorem pow_spellings (f : ZF K) (n : ℤ) :
+    powSpelled f n .int = pow f n ∧ powSpelled f n .bool = pow f n ∧
+    powSpelled f n .fraction = .error .value ∧ powSpelled f n .complex = .error .type ∧
+    ∀ h, powSpelled f n .float = .ok h → pow f n = .ok h := by
+  refine ⟨rfl, rfl, rfl, rfl, fun h e => ?_⟩
+  have hp : ∀ (p : MPoly K) (m : ℤ) (q : MPoly K), polyPowFloat p m = .ok q → q = C07.pow p m := by
+    intro p m q e
+    unfold polyPowFloat at e
+    split at e
+    · cases e
+    · exact (Except.ok.inj e).symm
+  have hgo : ∀ (g : ZF K) (m : ℤ), (do
+        let a ← polyPowFloat g.num m
+        let b ← polyPowFloat g.den m
+        ofPolys a b) = Except.ok h → ofPolys (C07.pow g.num m) (C07.pow g.den m) = .ok h := by
+    intro g m e
+    cases ha : polyPowFloat g.num m with
+    | error err => rw [ha] at e; cases e
+    | ok a =>
+      cases hb : polyPowFloat g.den m with
+      | error err => rw [ha, hb] at e; cases e
+      | ok b =>
+        rw [ha, hb] at e
+        rw [← hp _ _ _ ha, ← hp _ _ _ hb]
+        exact e
+  unfold powSpelled at e
+  unfold C05.pow
+  simp only at e
+  split at e
+  · rename_i hc
+    rw [if_pos hc]
+    cases hr : ofPolys f.den f.num with
+    | error err => rw [hr] at e; cases e
+    | ok r =>
+      rw [hr] at e
+      show ofPolys (C07.pow r.num (-n)) (C07.pow r.den (-n)) = .ok h
+      exact hgo r (-n) e
+  · rename_i hc
+    rw [if_neg hc]
+    exact hgo f n e
+
+/-! ### non-vacuity of C05.5 -/
+
+/-- `CascadeFilter(ParallelFilter(f1, g2))`, `ParallelFilter(CascadeFilter(f1, g2), 2, CascadeFilter())` … -/
+abbrev nP : FL ℚ := .node ⟨true, 0⟩ (.cons (.leaf f1) (.cons (.leaf g2) .nil))
+abbrev nC : FL ℚ := .node ⟨false, 0⟩ (.cons (.leaf f1) (.cons (.leaf g2) .nil))
+abbrev nCP : FL ℚ := .node ⟨false, 0⟩ (.cons nP .nil)
+abbrev nMix : FL ℚ := .node ⟨true, 1⟩ (.cons nC (.cons (.num 2) (.cons (.node ⟨false, 0⟩ .nil) .nil)))
+abbrev envQ : ℕ → ℚ → ℚ := fun i x => if i % 2 = 0 then x * x else x + 1
+
+example : nCP.All Causal ∧ nCP.Full := by
+  simp only [FL.All, FLs.All, FL.Full, FLs.Full]
+  exact ⟨⟨⟨by causal_tac, by causal_tac, trivial⟩, trivial⟩, ⟨by simp, ⟨by simp, trivial, trivial, trivial⟩, trivial⟩⟩
+example : (nCP.call envQ [1, 2, 3]).toOption = (nP.call envQ [1, 2, 3]).toOption ∧
+    (nP.call envQ [1, 2, 3]).toOption = some [5/2, 23/4, 77/8] := by decide +kernel
+example : (nMix.call envQ [1, 2, 3]).toOption = some [9/2, 21/2, 131/8] := by decide +kernel
+example : (FL.node ⟨false, 0⟩ (.cons (.other 0) (.cons (.leaf f1) .nil)) : FL ℚ).call envQ [1, 2, 3]
+    = .ok [1, 11/2, 63/4] := by decide +kernel
+example : (FL.node ⟨false, 0⟩ (.cons (.other 0) (.cons (.leaf f1) .nil)) : FL ℚ).polys = .error .attribute := by
+  decide +kernel
+example : (FL.node ⟨true, 0⟩ (.cons (.node ⟨false, 0⟩ .nil) .nil) : FL ℚ).polys = .error .type := by decide +kernel
+example := constructor_rule envQ ⟨false, 0⟩ nP (.cons (.leaf f1) .nil) [nP]
+example : Obj.eq (.fl nC) (.fl nP) = false ∧ Obj.ne (.fl nC) (.fl nP) = true ∧ Obj.eq (.fl nC) (.fl nC) = true ∧
+    Obj.ne (.fl nC) (.fl nC) = false := by decide +kernel
+example := linearize_weights (K := ℚ) ⟨4, 1/4, 1⟩
+example : (linearizeF [⟨0, -1/2, 2⟩, ⟨2, 0, 3⟩, ⟨4, 1/4, 1⟩] [⟨0, 0, (1 : ℚ)⟩]).toOption.map (fun h => h.num)
+    = some [(0, 3), (1, -1), (2, 3), (4, 3/4), (5, 1/4)] := by decide +kernel
+example : (powSpelled zz (-2) .float).toOption.map (fun h => h.num) = some [(2, 1)] := by decide +kernel
+example : (powSpelled f1 2 .float).toOption.isNone = true ∧ (powSpelled f1 2 .int).toOption.isSome = true := by
+  decide +kernel
 
 end ALV.Props.C05
 
